@@ -71,3 +71,25 @@ package larking
 //@   loop 1 invariant pos > 0 ==> Esc(msg[pos-1])
 //@   loop 1 unfold EL(msg, i+1)
 //@   loop 1 decreases len(msg) - i
+
+// ---------------------------------------------------------------------------
+// Stream codecs. rdS(r) is the abstract byte stream of reader r (everything it
+// will ever deliver), rdpos(r) the number of bytes delivered so far. Buffered
+// says that a buffer holds exactly the stream bytes [g, rdpos(r)): nothing
+// lost, duplicated or reordered, whatever the read boundaries were.
+//@ spec Buffered(b, r, g) = g + len(b) == rdpos(r) && (forall k :: 0 <= k && k < len(b) ==> b[k] == rdS(r)[g+k])
+
+//@ func (codecHTTPBody).ReadNext serves C17 C06 C08 C09
+//@   returns (dst, n, err)
+//@   ghost g0 = rdpos(r) - len(b)
+//@   requires r != nil && Buffered(b, r, g0)
+//@   requires limit > 0
+//@   ensures [conserve] Buffered(dst, r, g0)
+//@   ensures [bounds] 0 <= n && n <= len(dst)
+//@   ensures [limit] n <= limit
+//@   ensures [chunk] err == nil ==> n == limit
+//@   ensures [eof-all] err == io.EOF ==> n == len(dst)
+//@   ensures [err-nomsg] err != nil && err != io.EOF ==> n == 0
+//@   oracle err != io.EOF || n == len(dst)
+//@   loop 1 invariant Buffered(b, r, g0)
+//@   loop 1 decreases limit - len(b) assuming ReaderProgress
